@@ -74,6 +74,8 @@ func Main(args []string) int {
 		return 0
 	case "selftest":
 		return mainSelftest(args[1:])
+	case "manifest":
+		return mainManifest()
 	}
 	fmt.Fprintln(os.Stderr, "unknown command", args[0])
 	return 2
@@ -227,4 +229,5 @@ func mainSelftest(args []string) int { return 2 }
 
 func init() {
 	PropRules["C08"] = []string{"TOK-1", "TOK-2", "TOK-3", "TOK-4", "TOK-5", "TOK-6", "TOK-8"}
+	PropRules["C01"] = []string{"ORD-1", "ORD-2", "ORD-3", "ORD-5"}
 }
